@@ -297,7 +297,7 @@ def _copy_helpers(ctx, rep):
             n += 1
             a0 = e.d["args"][0] if e.d["args"] else None
             if given is False:
-                ok = isinstance(a0, tuple) and a0[0] == "sub" and a0[2] == ("const", 1) and isinstance(a0[1], tuple) and a0[1][0] == "call" and q.term_name(a0[1][1]) == "exc_info"
+                ok = q.exc_info_item(a0, 1)
                 rep.ob("R-EXC-ID", "copy_exception: without an explicit exception, the one being handled is stored", ok, "%s(%s)" % (q.call_name(e), fmt(a0) if a0 else None), where_of(ce, e.node), trace_of(p, e.seq))
             else:
                 rep.ob("R-EXC-ID", "copy_exception: the given exception object is stored as is", a0 == EXC, "%s(%s)" % (q.call_name(e), fmt(a0) if a0 else None), where_of(ce, e.node), trace_of(p, e.seq))
